@@ -77,7 +77,8 @@ class Interp:
         self.externals = externals or {}  # function object / name -> handler(interp, *args, **kwargs)
         self.contracts = contracts or {}  # function object -> handler (callee replaced by its contract)
         self.native = native or set()  # in-scope function objects that may run natively on concrete args
-        self.trusted_modules = set()  # modules of stubs / spec functions that run natively on symbolic values
+        # modules of stubs / spec functions that run natively on symbolic values
+        self.trusted_modules = {"spec.stubs.sgio", "spec.stubs.iscsi", "spec.stubs.world"}
         self.depth = 0
         self.max_depth = max_depth
         self.calls = []  # qualified names of interpreted functions (evidence)
@@ -286,6 +287,10 @@ class Interp:
                 return V.bor(*[SBool(item.e == z3.StringVal(k)) for k in ks]) if ks else False
             raise Unsupported("membership with symbolic string")
         if isinstance(item, (SInt, SBool)):
+            if isinstance(container, range) and container.step == 1:
+                return V.band(V.compare(">=", item, container.start), V.compare("<", item, container.stop)) if len(container) else False
+            if isinstance(container, (dict, set, frozenset)) and len(container) > 16 and isinstance(item, SInt) and item.is_bv:
+                return _member_big(container, item)
             if isinstance(container, (dict, set, frozenset, list, tuple, range, SBytes)):
                 ks = [k for k in container if isinstance(k, (int, SInt)) and not isinstance(k, SBool)]
                 if not ks:
@@ -297,6 +302,27 @@ class Interp:
         if isinstance(container, (list, tuple)) and any(isinstance(c, (SInt, SBool)) for c in container):
             return V.bor(*[V.compare("==", item, c) if isinstance(c, (int, SInt)) else (item == c) for c in container])
         return item in container
+
+
+_MEMBER_CACHE = {}
+
+
+def _member_big(container, item):
+    """membership of a symbolic integer in a large concrete container of ints: a disjunction over a bit-vector
+    narrowed to the item's interval, cached per (container, term)"""
+    ks = tuple(sorted(k for k in container if isinstance(k, int) and not isinstance(k, bool)))
+    key = (id(container), item.e.get_id())
+    ent = _MEMBER_CACHE.get(key)
+    if ent is not None and ent[0] == ks:
+        return ent[2]
+    w = V.W
+    if item.lo is not None and item.hi is not None and item.lo >= 0 and item.hi < (1 << 64):
+        w = max(1, item.hi.bit_length())
+    en = z3.Extract(w - 1, 0, item.e) if w < V.W else item.e
+    cond = z3.Or([en == z3.BitVecVal(k, w) for k in ks if 0 <= k < (1 << w)] or [z3.BoolVal(False)])
+    r = SBool(cond)
+    _MEMBER_CACHE[key] = (ks, item.e, r, container)
+    return r
 
 
 def _zstr(x):
@@ -956,7 +982,7 @@ class Frame:
         """container[symbolic integer]"""
         if isinstance(obj, dict):
             ks = [k for k in obj.keys() if isinstance(k, int) and not isinstance(k, bool)]
-            present = V.bor(*[V.compare("==", idx, k) for k in ks]) if ks else False
+            present = self.I.contains(obj, idx) if ks else False
             if not self.I.truth(present):
                 raise KeyError(idx)
             vals = [obj[k] for k in ks]
